@@ -840,6 +840,7 @@ def main():
         for p in ("release", "dbg"):
             build(p)
         build_repo_cli()
+        build_miri()
         return 0
     if prop == "replay":
         return replay(sys.argv[2])
